@@ -614,6 +614,13 @@ func condUsers(v ssa.Value, neg bool) []condUse {
 type orgCtx struct {
 	seen  map[ssa.Value]bool
 	depth int
+	subst map[*ssa.Parameter]string // helper parameters rendered as the caller's argument
+}
+
+// orgSubst renders v like org, with the given parameters replaced by the given strings (a value of a helper frame
+// seen from its caller).
+func orgSubst(v ssa.Value, subst map[*ssa.Parameter]string) string {
+	return (&orgCtx{seen: map[ssa.Value]bool{}, subst: subst}).org(v)
 }
 
 func org(v ssa.Value) string { return (&orgCtx{seen: map[ssa.Value]bool{}}).org(v) }
@@ -709,6 +716,9 @@ func (o *orgCtx) org(v ssa.Value) string {
 	defer func() { o.depth-- }()
 	switch x := v.(type) {
 	case *ssa.Parameter:
+		if r, ok := o.subst[x]; ok {
+			return r
+		}
 		return fmt.Sprintf("p%d", paramIndex(x))
 	case *ssa.FreeVar:
 		return "fv:" + x.Name()
